@@ -21,6 +21,7 @@ RULE = (
     'defining the property fullmatches) runs in lock-step; after every op validate / validateWithProfile()[0] on a '
     '34-pair battery, knownNames, profiles and propertiesByProfile() must equal the model. '
     'Non-trivial: a removal happens after an addition whose macros overlap macros already in use; distinct by history.'
+    ' addProfiles may name profiles that are registered already (replaced by ANOTHER definition with other macro values).'
 )
 ASSUMPTIONS = [
     'a profile name is never registered twice at the same time; a profile only uses macros it defines or built-in ones (sound domain stated in the design)',
